@@ -218,6 +218,58 @@ fn sized_rows<L: Letter>(rep: &mut Report) {
     }
 }
 
+/// formatting honours the caller's format options exactly as the value does
+fn format_rows(rep: &mut Report) {
+    #[derive(Debug, Clone, Copy, PartialEq)]
+    struct Point {
+        x: i32,
+        y: [u8; 2],
+    }
+    let v = Point { x: -1, y: [2, 3] };
+    let a = Arc::new(v);
+    let o = Arc::into_raw_offset(a.clone());
+    let f = Arc::new(1.5f64);
+    let of = Arc::into_raw_offset(f.clone());
+    let t: ThinArc<u16, u8> = ThinArc::from_header_and_slice(7, &[1, 2]);
+    rep.evals += 1;
+    macro_rules! same {
+        ($fmt:literal) => {
+            if format!($fmt, a) != format!($fmt, v) {
+                rep.bad("Arc Debug: format options are not forwarded to the value", format!("{} gives {:?}", $fmt, format!($fmt, a)));
+            }
+            if format!($fmt, o) != format!($fmt, v) {
+                rep.bad("OffsetArc Debug: format options are not forwarded to the value", format!("{} gives {:?}", $fmt, format!($fmt, o)));
+            }
+            if format!($fmt, f) != format!($fmt, 1.5f64) {
+                rep.bad("Arc Debug: format options are not forwarded to the value", format!("{} on f64", $fmt));
+            }
+            if format!($fmt, of) != format!($fmt, 1.5f64) {
+                rep.bad("OffsetArc Debug: format options are not forwarded to the value", format!("{} on f64", $fmt));
+            }
+            if format!($fmt, t) != format!($fmt, &*t) {
+                rep.bad("ThinArc Debug: format options are not forwarded to the value", format!("{}", $fmt));
+            }
+        };
+    }
+    same!("{:?}");
+    same!("{:#?}");
+    same!("{:12?}");
+    same!("{:<9?}");
+    same!("{:.1?}");
+    same!("{:+.3?}");
+    macro_rules! disp {
+        ($fmt:literal) => {
+            if format!($fmt, f) != format!($fmt, 1.5f64) {
+                rep.bad("Arc Display: format options are not forwarded to the value", format!("{}", $fmt));
+            }
+        };
+    }
+    disp!("{}");
+    disp!("{:8.3}");
+    disp!("{:+}");
+    disp!("{:<6}");
+}
+
 /// hashing and map-key use (total carrier only)
 fn hash_rows(rep: &mut Report) {
     fn hv<T: Hash + ?Sized>(t: &T) -> u64 {
@@ -331,6 +383,7 @@ pub fn run(total_rows: &str, partial_rows: &str, refl_rows: &str, out_path: &str
     sized_rows::<f32>(&mut rep);
     sized_rows::<Refl>(&mut rep);
     hash_rows(&mut rep);
+    format_rows(&mut rep);
     if samples.is_empty() {
         samples.push(json!("(no row sampled)"));
     }
